@@ -556,6 +556,7 @@ pub struct Sim {
     parked: Vec<usize>,
     /// when set, delivered bytes are collected here instead of being handed to the transport
     pub capture: Option<Vec<u8>>,
+    pub run_epoch: usize,
 }
 
 impl Sim {
@@ -596,6 +597,7 @@ impl Sim {
             runq,
             parked: Vec::new(),
             capture: None,
+            run_epoch: 0,
         };
         s.cmd(Cmd::SetUp(reader, writer));
         s
@@ -625,6 +627,7 @@ impl Sim {
         self.reader = MockReader::new();
         self.writer = MockWriter::new();
         let (r, w) = (self.reader.clone(), self.writer.clone());
+        self.run_epoch = self.run_results_count();
         self.note(|| "new transport".into());
         self.cmd(Cmd::SetUp(r, w));
     }
@@ -651,9 +654,12 @@ impl Sim {
         self.ctx_sh.borrow().results.iter().rev().find(|(c, _)| *c == call).map(|(_, o)| o.clone())
     }
 
+    /// Result of the current run() call (calls that ended before the last transport change are not counted).
     pub fn run_result(&self) -> Option<Result<(), ErrSum>> {
-        match self.last_ctx_result("run") {
-            Some(CtxOut::Run(r)) => Some(r),
+        let sh = self.ctx_sh.borrow();
+        let runs: Vec<&CtxOut> = sh.results.iter().filter(|(c, _)| *c == "run").map(|(_, o)| o).collect();
+        match runs.get(self.run_epoch..).and_then(|r| r.last()) {
+            Some(CtxOut::Run(r)) => Some(r.clone()),
             _ => None,
         }
     }
